@@ -7,7 +7,8 @@
  *          0: state-changing operations only
  *
  * ops:  0 ins(n, hinted)   1 era(k)   2 find(k)   3 foreach(dir, stopAt)
- *       4 clear(poison)    5 height   6 swap (with the second tree object)
+ *       4 clear(poison, nest)    5 height   6 swap (with the second tree object);  foreach / clear with nest: the
+ *       callback walks the same tree (foreach) or walks, clears and rebuilds a tree the element owns (clear)
  *
  * Element identity: index in the driver's pool (1..N); a pointer that is not
  * a pool element is logged as -1 ("alien").
@@ -108,10 +109,47 @@ static void drv_reset(void)
 
 /* ---- callbacks ---- */
 static int cb_count, cb_stop;
+/* nested walks: a visit function may itself walk the tree it is called from (traversal is a const operation), and
+ * the elements of a tree may own trees of their own which the clear callback walks and clears.  nw = smallest /
+ * largest number of elements a nested walk saw and whether every one of them came in order */
+static int nest, nw_min, nw_max, nw_ok, nw_n, nw_last, nw_rev, nin;
+static struct cstl_rbtree IN; static struct el inner[4];
+static int nest_visit(const void *e, cstl_bintree_visit_order_t order, void *p)
+{
+    const struct el *x = e;
+    e_check_priv(p);
+    if (order == CSTL_BINTREE_VISIT_ORDER_MID || order == CSTL_BINTREE_VISIT_ORDER_LEAF) {
+        if (nw_n > 0 && (nw_rev ? x->key > nw_last : x->key < nw_last)) nw_ok = 0;
+        nw_last = x->key; nw_n++;
+    }
+    return 0;
+}
+static void nested_walk(struct cstl_rbtree *t, int rev)
+{
+    size_t mn, mx;
+    nw_n = 0; nw_rev = rev;
+    if (RB) { cstl_rbtree_foreach(t, nest_visit, E_PRIV, rev ? CSTL_BINTREE_FOREACH_DIR_REV : CSTL_BINTREE_FOREACH_DIR_FWD); cstl_rbtree_height(t, &mn, &mx); }
+    else { cstl_bintree_foreach(&t->t, nest_visit, E_PRIV, rev ? CSTL_BINTREE_FOREACH_DIR_REV : CSTL_BINTREE_FOREACH_DIR_FWD); cstl_bintree_height(&t->t, &mn, &mx); }
+    if (nw_min < 0 || nw_n < nw_min) nw_min = nw_n;
+    if (nw_n > nw_max) nw_max = nw_n;
+}
+static void inner_fill(void)
+{
+    int i;
+    for (i = 1; i <= 3; i++) { inner[i].key = i; inner[i].id = -i; if (RB) cstl_rbtree_insert(&IN, &inner[i], NULL); else cstl_bintree_insert(&IN.t, &inner[i], NULL); }
+}
+static void inner_clear_cb(void *e, void *p)
+{
+    e_check_priv(p);
+    if ((struct el *)e >= &inner[1] && (struct el *)e <= &inner[3]) nin++; else nin += 1000;
+    memset(&((struct el *)e)->n, 0xA5, sizeof(struct cstl_rbtree_node));
+}
+static int visit_dir;
 static int visit_cb(const void *e, cstl_bintree_visit_order_t order, void *p)
 {
     e_check_priv(p);
     cb_count++;
+    if (nest) nested_walk(&T[cur], !visit_dir);
     ev_add("[%d,%d]", id_of_el(e), (int)order);
     return (cb_stop && cb_count == cb_stop) ? e_stopval(cb_stop) : 0;
 }
@@ -122,6 +160,11 @@ static void clear_cb(void *e, void *p)
     e_check_priv(p);
     cb_count++;
     ev_add("%d", id);
+    if (nest) {          /* the element owns a tree: look through it, dispose of it, (re)build it for the next one */
+        nested_walk(&IN, cb_count & 1);
+        if (RB) cstl_rbtree_clear(&IN, inner_clear_cb, E_PRIV); else cstl_bintree_clear(&IN.t, inner_clear_cb, E_PRIV);
+        inner_fill();
+    }
     if (id > 0) {
         held[id] = 0;
         /* the element now belongs to the callee: scribble over its links */
@@ -169,16 +212,19 @@ static void drv_apply(const vop_t *op, jb_t *res)
     }
     case 3: {
         int r;
-        cb_count = 0; cb_stop = op->a[1];
+        cb_count = 0; cb_stop = op->a[1]; nest = op->a[2]; nw_min = -1; nw_max = 0; nw_ok = 1; visit_dir = op->a[0];
         r = RB ? cstl_rbtree_foreach(&T[cur], visit_cb, E_PRIV, op->a[0] ? CSTL_BINTREE_FOREACH_DIR_REV : CSTL_BINTREE_FOREACH_DIR_FWD)
                : cstl_bintree_foreach(BT(), visit_cb, E_PRIV, op->a[0] ? CSTL_BINTREE_FOREACH_DIR_REV : CSTL_BINTREE_FOREACH_DIR_FWD);
-        jb_printf(res, ",\"ret\":%d", r);
+        nest = 0;
+        jb_printf(res, ",\"ret\":%d,\"nw\":[%d,%d,%d]", r, nw_min < 0 ? 0 : nw_min, nw_max, nw_ok);
         break;
     }
     case 4:
-        cb_count = 0; clear_poison = op->a[0];
+        cb_count = 0; clear_poison = op->a[0]; nest = op->a[1]; nw_min = -1; nw_max = 0; nw_ok = 1; nin = 0;
+        if (nest) { tree_init(&IN, 0); inner_fill(); }
         if (RB) cstl_rbtree_clear(&T[cur], clear_cb, E_PRIV); else cstl_bintree_clear(BT(), clear_cb, E_PRIV);
-        jb_puts(res, ",\"ret\":0");
+        nest = 0;
+        jb_printf(res, ",\"ret\":0,\"nw\":[%d,%d,%d],\"nin\":%d", nw_min < 0 ? 0 : nw_min, nw_max, nw_ok, nin);
         break;
     case 5: {
         size_t mn = 7777, mx = 7777;
@@ -203,8 +249,8 @@ static void drv_opjson(const vop_t *op, jb_t *b)
     case 0: jb_printf(b, "\"op\":\"ins\",\"n\":%d,\"h\":%s", op->a[0], op->a[1] ? "true" : "false"); break;
     case 1: jb_printf(b, "\"op\":\"era\",\"k\":%d,\"alias\":%s", op->a[0], op->a[1] ? "true" : "false"); break;
     case 2: jb_printf(b, "\"op\":\"find\",\"k\":%d,\"nopar\":%s,\"alias\":%s", op->a[0], op->a[1] ? "true" : "false", op->a[2] ? "true" : "false"); break;
-    case 3: jb_printf(b, "\"op\":\"foreach\",\"rev\":%s,\"stop\":%d", op->a[0] ? "true" : "false", op->a[1]); break;
-    case 4: jb_printf(b, "\"op\":\"clear\",\"poison\":%s", op->a[0] ? "true" : "false"); break;
+    case 3: jb_printf(b, "\"op\":\"foreach\",\"rev\":%s,\"stop\":%d,\"nest\":%s", op->a[0] ? "true" : "false", op->a[1], op->a[2] ? "true" : "false"); break;
+    case 4: jb_printf(b, "\"op\":\"clear\",\"poison\":%s,\"nest\":%s", op->a[0] ? "true" : "false", op->a[1] ? "true" : "false"); break;
     case 5: jb_puts(b, "\"op\":\"height\""); break;
     case 6: jb_puts(b, "\"op\":\"swap\""); break;
     default: jb_printf(b, "\"op\":\"?%d\"", op->k);
@@ -269,8 +315,10 @@ static int drv_enum(vop_t *ops, int max)
             vop_t o = { 3, { d, j } };
             if (PROBES < 2 && !(j == 0 || j == 1 || j == sz || j == 3 * sz - 1)) continue;
             ops[no++] = o;
+            if (j == 0 || j == sz) { vop_t o2 = { 3, { d, j, 1 } }; ops[no++] = o2; }     /* the visit function walks the tree itself */
         }
         { vop_t o = { 5, { 0 } }; ops[no++] = o; }
+        { vop_t o = { 4, { 1, 1 } }; ops[no++] = o; }                                   /* the elements own trees */
     }
     { vop_t o = { 4, { 1 } }; ops[no++] = o; }
     if (SWAP) { vop_t o = { 6, { 0 } }; ops[no++] = o; }
@@ -287,9 +335,9 @@ static int drv_random(unsigned long (*rnd)(void), vop_t *op)
         op->k = 0; op->a[0] = n; op->a[1] = (int)(rnd() & 1);
     } else if (r < 85) { op->k = 1; op->a[0] = 1 + (int)(rnd() % (unsigned)MAXK); op->a[1] = (int)(rnd() & 1);
     } else if (r < 90) { op->k = 2; op->a[0] = (int)(rnd() % (unsigned)(MAXK + 2)); op->a[1] = (int)(rnd() & 1); op->a[2] = (int)(rnd() & 1);
-    } else if (r < 95) { op->k = 3; op->a[0] = (int)(rnd() & 1); op->a[1] = (rnd() & 1) ? 0 : (int)(rnd() % (unsigned)(2 * sz + 1));
+    } else if (r < 95) { op->k = 3; op->a[0] = (int)(rnd() & 1); op->a[1] = (rnd() & 1) ? 0 : (int)(rnd() % (unsigned)(2 * sz + 1)); op->a[2] = rnd() % 3 == 0;
     } else if (r < 97) { op->k = 5;
-    } else if (r < 98 && sz < 12) { op->k = 4; op->a[0] = 1;
+    } else if (r < 98 && sz < 12) { op->k = 4; op->a[0] = 1; op->a[1] = (int)(rnd() & 1);
     } else if (SWAP) { op->k = 6; } else { op->k = 2; op->a[0] = 1; }
     return 1;
 }
